@@ -1031,7 +1031,9 @@ fn batch_worker(o: &mut String, preset: &str, seed: u64) {
             let r = BatchRunner::new(base, 4).with_config(DSTConfig::chaos(0)).run_default(80);
             writeln!(o, "{:?}\n{}", r, r.summary()).unwrap();
             let mut log = Vec::new();
-            let r2 = BatchRunner::new(base, 3).run_sequential(40, |sim| {
+            // the same fault preset as above: this worker installs exactly one preset (chaos),
+            // which is what fault_preset_of() tells the history generator
+            let r2 = BatchRunner::new(base, 3).with_config(DSTConfig::chaos(0)).run_sequential(40, |sim| {
                 let n = sim.random_running_node();
                 sim.advance_time(17);
                 log.push(format!("{:?} t={:?} id={}", n, sim.current_time(), sim.next_op_id()));
